@@ -37,6 +37,8 @@ Print Assumptions C03_site_structure.
     stack; B's tail then jumps to A's resume label, and when A's code after the label has run:
     rsp, rbp, rbx, r12-r15 and every register A does not declare dead are as in s0, and so is every
     stack word from rsp-128 (the red zone) up to hi.
+    (Integer registers and stack only; for the floating-point control state see
+    C03_fp_control_refuted / C03_fp_control_partial below.)
     Side condition: A's context record is not inside A's own live stack [rsp0-depth, hi). *)
 Theorem C03_ctx_check_sound :
   forall (lblf : Z -> Z -> Z) (cb : Z -> state -> state) (hi : Z),
@@ -207,6 +209,86 @@ Proof. exact pub_check_sound. Qed.
 Print Assumptions C03_callbacks_after_save.
 
 (* ------------------------------------------------------------------ *)
+(** * floating-point control state (MXCSR control bits, x87 control word)
+
+    Scope of the theorems above: rsp, the INTEGER callee-saved registers rbp rbx r12-r15, the
+    undeclared registers and the stack.  The ABI also makes the control bits of MXCSR and the x87
+    control word callee-saved.  The switch sequences of the current tree do not save them
+    (MYTH_SAVE_FPCSR is 0), so the FULL statement of the property for them,
+
+      forall A B (accepted) s0 fp0 sB fpB (hypotheses of C03_ctx_check_sound),
+        the control state after suspend-at-A / resume-through-B equals fp0,
+
+    is false of the faithful model: the thread finds whatever the resuming worker was left with. *)
+
+(** in the setting of C03_ctx_check_sound on extended states, the control state after the
+    resumption is the one of the resuming worker *)
+Theorem C03_fp_control_follows_worker : forall lblf cb hi, abi_callee hi cb ->
+  forall A B pa pb depth r0,
+    ctx_check A = true -> ctx_check B = true ->
+    site_parts (code A) = Some pa -> site_parts (code B) = Some pb ->
+    site_summary A = Some (depth, r0) ->
+    forall s0 fp0,
+      rg s0 RSP <= hi -> ~ (rg s0 RSP - depth <= rg s0 r0 < hi) ->
+      exists x1,
+        xrun (lblf (sid A)) cb (save_code pa) (mkX s0 fp0) = XNext x1 /\
+        rg (xcore x1) RSP = rg s0 RSP - depth /\ mem (xcore x1) (rg s0 r0) = rg (xcore x1) RSP /\
+        xfp x1 = fp0 /\
+        forall sB fpB,
+          (forall a, rg (xcore x1) RSP <= a < hi -> mem sB a = mem (xcore x1) a) ->
+          mem sB (rg sB (p_load pb)) = rg (xcore x1) RSP ->
+          exists x2 l rs x3,
+            p_cont pa = Some (l, rs) /\
+            xrun (lblf (sid B)) cb (tail_code pb) (mkX sB fpB) = XJump (lblf (sid A) l) x2 /\
+            xrun (lblf (sid A)) cb rs x2 = XNext x3 /\
+            rg (xcore x3) RSP = rg s0 RSP /\
+            (forall r, In r callee_saved -> rg (xcore x3) r = rg s0 r) /\
+            (forall a, rg s0 RSP - 128 <= a < hi -> mem (xcore x3) a = mem s0 a) /\
+            xfp x3 = fpB.
+Proof. exact fp_control_follows_worker. Qed.
+Print Assumptions C03_fp_control_follows_worker.
+
+(** REFUTED: concrete witness (myth_swap_context as compiled; A runs round-upward, the thread
+    in between leaves the worker round-downward): all hypotheses of the soundness theorem hold,
+    rsp and the integer callee-saved registers are restored, the control state is not.
+    Known finding C03-fp-control-not-preserved; reproduced on the real library by the fp mode of
+    harness/c03_probe.c. *)
+Theorem C03_fp_control_refuted :
+  exists (A : site) (pa : parts) (hi : Z) (x0 x1 xB x2 x3 : xstate) (l : Z) (rs : list instr),
+    ctx_check A = true /\ site_parts (code A) = Some pa /\ p_cont pa = Some (l, rs) /\
+    abi_callee hi d_cb /\
+    xrun (d_lbl (sid A)) d_cb (save_code pa) x0 = XNext x1 /\
+    (forall a, rg (xcore x1) RSP <= a < hi -> mem (xcore xB) a = mem (xcore x1) a) /\
+    mem (xcore xB) (rg (xcore xB) (p_load pa)) = rg (xcore x1) RSP /\
+    xrun (d_lbl (sid A)) d_cb (tail_code pa) xB = XJump (d_lbl (sid A) l) x2 /\
+    xrun (d_lbl (sid A)) d_cb rs x2 = XNext x3 /\
+    rg (xcore x3) RSP = rg (xcore x0) RSP /\
+    (forall r, In r callee_saved -> rg (xcore x3) r = rg (xcore x0) r) /\
+    xfp x0 = FP_UPWARD /\ xfp x3 = FP_DOWNWARD /\ fp_eqb (xfp x3) (xfp x0) = false.
+Proof. exact fp_control_refuted. Qed.
+Print Assumptions C03_fp_control_refuted.
+
+(** PARTIAL: under the guard that the resuming worker still has the control state the thread
+    was suspended with (no thread changes it, or every thread that does restores it before it
+    switches) the thread finds it unchanged.  Missing for the full statement: a save / restore of
+    MXCSR and the x87 control word in the switch sequences. *)
+Theorem C03_fp_control_partial : forall lblf cb hi, abi_callee hi cb ->
+  forall A B pa pb depth r0,
+    ctx_check A = true -> ctx_check B = true ->
+    site_parts (code A) = Some pa -> site_parts (code B) = Some pb ->
+    site_summary A = Some (depth, r0) ->
+    forall s0 fp0 x1 sB x2 l rs x3,
+      rg s0 RSP <= hi -> ~ (rg s0 RSP - depth <= rg s0 r0 < hi) ->
+      xrun (lblf (sid A)) cb (save_code pa) (mkX s0 fp0) = XNext x1 ->
+      (forall a, rg (xcore x1) RSP <= a < hi -> mem sB a = mem (xcore x1) a) ->
+      mem sB (rg sB (p_load pb)) = rg (xcore x1) RSP ->
+      xrun (lblf (sid B)) cb (tail_code pb) (mkX sB fp0) = XJump (lblf (sid A) l) x2 ->
+      xrun (lblf (sid A)) cb rs x2 = XNext x3 ->
+      xfp x3 = fp0.
+Proof. exact fp_control_partial. Qed.
+Print Assumptions C03_fp_control_partial.
+
+(* ------------------------------------------------------------------ *)
 (** * non-vacuity: the hypotheses are met by the sites of the pinned tree and by concrete states *)
 
 Example pinned_sites_accepted : forallb ctx_check sites = true.
@@ -311,3 +393,8 @@ Example rejects_publish_before_save :
   pub_check [PPubSelf; PSwitchPlainThread; PSwitchCall 10] = false /\
   safe_run (flat_map expand [PPubSelf; PSwitchPlainThread]) (mkPst false false) = false.
 Proof. vm_compute; split; reflexivity. Qed.
+
+(** the witness site of C03_fp_control_refuted is the swap site of the pinned tree *)
+Example fp_witness_is_pinned_site : code fp_witness_site = code site_2 /\ outs fp_witness_site = outs site_2 /\
+  ins fp_witness_site = ins site_2 /\ clobs fp_witness_site = clobs site_2.
+Proof. repeat split; reflexivity. Qed.
